@@ -8,8 +8,8 @@ TOKSETS = [
     {"A": "Workstation", "B": "HighAvailability", "C": "Server", "T": "ServerSAP", "o": "optional", "h": "SAPHANA"},
 ]
 ARCHSETS = [
-    {"x": "x86_64", "y": "ppc64le", "z": "s390x"},
-    {"x": "aarch64", "y": "i386", "z": "x86_64"},
+    {"x": "x86_64", "y": "ppc64le", "z": "s390x", "s": "src"},
+    {"x": "aarch64", "y": "i386", "z": "x86_64", "s": "src"},
 ]
 
 
@@ -256,6 +256,11 @@ def eval_state(case):
         if (a.id, a.uid, a.type, a.arches) != (b.id, b.uid, b.type, b.arches):
             return ["re-read variant %s differs: %s vs %s" % (a.uid, (a.id, a.uid, a.type, sorted(a.arches)), (b.id, b.uid, b.type, sorted(b.arches)))]
     fails = queries(ci2, objs2, forest, "re-read forest %s" % _short(case["hist"]), arch, True)
+    if fails:
+        return fails
+    # ... and the ORIGINAL forest still answers with its own objects after a second compose with the same UIDs exists in the process
+    fails = queries(ci, objs, forest, "forest %s after another compose with the same UIDs was read in this process" % _short(case["hist"]),
+                    arch, True, light="ROOT")
     if fails:
         return fails
     # every outgoing transition
